@@ -333,4 +333,6 @@ def r6(ctx):
     c12.r4(_Sub(ctx, "C10.R6"))
     c04.r2(_Sub(ctx, "C10.R6"))
 
+EXPLANATION = EXPLANATION + ' (R5) repository idioms; (R6) connection bookkeeping that the handler lifecycle depends on (liveness clock, statistics) is updated only after authentication and the duplicate test (shared C12.R4 + C04.R2).'
+
 RULES = [("C10.R1", r1), ("C10.R2", r2), ("C10.R3", r3), ("C10.R4", r4), ("C10.R5", r_enum), ("C10.R6", r6)]
